@@ -241,7 +241,7 @@ theorem instInv_final (S : Schema) (E : Enums) (cs : KeyCase) (fs : List FieldD)
     same message as the class form -/
 theorem roundtrip_instance (S : Schema) (E : Enums) (cs : KeyCase) (hS : SchemaOk S E cs) (c : Nat) (sl : List Val)
     (ow : Bool) (unk : Bytes) (cur : List (Option Nat))
-    (hwt : wellTyped S (.msg c sl ow unk cur) = true) (hsel : selOk S (.msg c sl ow unk cur) = true) :
+    (hwt : wellTyped' S (.msg c sl ow unk cur) = true) (hsel : selOk S (.msg c sl ow unk cur) = true) :
     fromDictI S E (fresh S c) (toDict S E cs false (.msg c sl ow unk cur))
       = .ok (jrt S E cs (.msg c sl ow unk cur)) := by
   obtain ⟨hunk, a1, _, _⟩ := msgRT_of_wellTyped S E cs hS c sl ow unk cur hwt hsel
